@@ -333,6 +333,48 @@ proof! {
 	}
 }
 
+pub mod tag2 {
+	/// tagging stub for Proof::scaled_difficulty (the 128-bit quotient scale * 2^64 / hash is not
+	/// decided: symbolic wide division does not finish): hands back the scale it was given
+	pub fn scaled_difficulty(_p: &grin_core::pow::Proof, scale: u64) -> u64 {
+		scale
+	}
+}
+
+proof! {
+	[]
+	#[cfg_attr(kani, kani::stub(grin_core::pow::Proof::scaled_difficulty, tag2::scaled_difficulty))]
+	fn pow_difficulty_scaling_dispatch() {
+		// which scaling factor the achieved difficulty of a proof is computed with: the header's
+		// secondary_scaling for the secondary PoW (edge_bits 29), the graph weight of
+		// (height, edge_bits) for every other size; the unscaled difficulty uses factor 1
+		#[cfg(kani)]
+		{
+			use grin_core::pow::{Proof, ProofOfWork};
+			let ct = env::any_chain_type();
+			env::set_chain_type(ct);
+			let eb: u8 = nd::any();
+			nd::assume(eb <= 63);
+			let height: u64 = nd::any();
+			let scaling: u32 = nd::any();
+			let pow = ProofOfWork { total_difficulty: Difficulty::from_num(1), secondary_scaling: scaling, nonce: nd::any(), proof: Proof { edge_bits: eb, nonces: vec![] } };
+			// sizes below the chain's base size never get here (refused as neither primary nor
+			// secondary when the header is read); graph_weight is not defined for them
+			nd::assume(eb == 29 || eb >= grin_core::global::base_edge_bits());
+			let d = pow.to_difficulty(height).to_num();
+			let at_least_one = |x: u64| if x == 0 { 1 } else { x };
+			if eb == 29 {
+				check!(d == at_least_one(scaling as u64), "secondary PoW: scaled by the header's secondary_scaling");
+			} else {
+				check!(d == at_least_one(consensus::graph_weight(height, eb)), "primary PoW: scaled by the graph weight of its size at that height");
+			}
+			check!(pow.to_unscaled_difficulty().to_num() == 1, "unscaled difficulty uses factor 1");
+			cover!(eb == 29 && scaling as u64 != consensus::graph_weight(height, eb), "the two factors differ");
+			core::mem::forget(pow);
+		}
+	}
+}
+
 pub const HARNESSES: &[(&str, fn())] = &[
 	("c04::dma_total_floor", dma_total_floor),
 	("c04::pre_genesis_padding", pre_genesis_padding),
@@ -347,4 +389,5 @@ pub const HARNESSES: &[(&str, fn())] = &[
 	("c04::graph_weight_no_overflow", graph_weight_no_overflow),
 	("c04::secondary_pow_ratio_schedule", secondary_pow_ratio_schedule),
 	("c04::pow_primary_secondary_predicates", pow_primary_secondary_predicates),
+	("c04::pow_difficulty_scaling_dispatch", pow_difficulty_scaling_dispatch),
 ];
